@@ -26,6 +26,7 @@ Deck layer (memory id DECK_ID, a real DeckMemoryManager registered on Memory's n
 _handle_cmd_info_details does, and real DeckMemory objects, one per base address):
   ['DR', base, addr, len, tok]         DeckMemory(base).read(addr, len, cb, read_failed_cb)
   ['DW', base, addr, [bytes], tok]     DeckMemory(base).write(addr, data, cb, write_failed_cb)
+a negative tok: the optional failure callback is not passed.
 their callbacks are reported as 12 (read done: tok, reported address, data), 13 (read failed), 14 (write done),
 15 (write failed), like `enc_dobs` of coq/C06/DeckModel.v.
 Observations are encoded as integers exactly like `enc_obs` / `sys_trace` of the model.
@@ -284,8 +285,11 @@ class Rig:
             self.last_read_ret = None
             if self.mgr._read_complete_cb is None:      # otherwise the manager refuses ('Read operation ongoing')
                 self.mgr_uid['r'] = u0
-            dk.read(ev[2], ev[3], lambda a, data: self._dnote('drok', tok, a, list(data)),
-                    read_failed_cb=lambda a: self._dnote('drfail', tok, a))
+            if tok >= 0:
+                dk.read(ev[2], ev[3], lambda a, data: self._dnote('drok', tok, a, list(data)),
+                        read_failed_cb=lambda a: self._dnote('drfail', tok, a))
+            else:                  # a negative token: the caller passes no failure callback (it is optional)
+                dk.read(ev[2], ev[3], lambda a, data: self._dnote('drok', tok, a, list(data)))
             if self.last_read_ret:
                 self.uid += 1
             self.cur += [6, 1 if self.last_read_ret else 0]
@@ -293,8 +297,11 @@ class Rig:
             if self.mgr._write_complete_cb is None:
                 self.mgr_uid['w'] = u0
                 self.uid += 1
-            dk.write(ev[2], bytearray(ev[3]), lambda a: self._dnote('dwok', tok, a),
-                     write_failed_cb=lambda a: self._dnote('dwfail', tok, a))
+            if tok >= 0:
+                dk.write(ev[2], bytearray(ev[3]), lambda a: self._dnote('dwok', tok, a),
+                         write_failed_cb=lambda a: self._dnote('dwfail', tok, a))
+            else:
+                dk.write(ev[2], bytearray(ev[3]), lambda a: self._dnote('dwok', tok, a))
             self.cur += [6, 1]
         self.stream.append(('dopret', ev, u0, self.uid))
 
